@@ -25,7 +25,9 @@ FAM_THOROUGH = [("mlines", 3, 8, None), ("mmultilines", 3, 16, None), ("mrings",
 
 # isotropic exact images (length scales by s, area by s^2); two of them are pure translations
 IMAGES = [geom.IDENT, geom.Affine(1.0, -7.0, 1.0, 11.0, name="translate"), geom.Affine(0.25, 3.0, 0.25, -5.0, name="quarter"),
-          geom.Affine(1024.0, 2.0 ** 22, 1024.0, -(2.0 ** 22), name="big"), geom.Affine(1.0, 30000.0 - 8, 1.0, -30000.0, name="edge16")]
+          geom.Affine(1024.0, 2.0 ** 22, 1024.0, -(2.0 ** 22), name="big"), geom.Affine(1.0, 30000.0 - 8, 1.0, -30000.0, name="edge16"),
+          # far from the origin: |x * y| > 2^53, so a shoelace that multiplies absolute coordinates is no longer exact
+          geom.Affine(1.0, 300000007.0, 1.0, -200000011.0, name="far")]
 
 
 def expected_length(sqlens, s):
